@@ -138,11 +138,11 @@ theorem mlySetpos_reseed (r : Rule) (ds p x : Inst) (hr : WfRule r) (hf : r.freq
 /-- C01 across a refill, soundness: every instant written from a seed that is an instance of (ds, rule) is an instance
 of (ds, rule) chosen by BYSETPOS -/
 theorem fillMly_sound_reseed (r : Rule) (ds p : Inst) (n : Nat) (l : List Inst) (hr : WfRule r) (hp : WfInst p)
-    (hs : SeedOk r p) (hn : n ≤ 64) (hy : 1901 ≤ p.y) (hsup : MlySup r) (hsh : r.shift = 0)
+    (hn : n ≤ 64) (hy : 1901 ≤ p.y) (hsup : MlySup r) (hsh : r.shift = 0)
     (hf : r.pos ≠ [] → r.freq = 2) (hseed : MonthlyInst r ds p) (h : fillMly r p n = some l) :
     ∀ x ∈ l, MonthlyInst r ds x ∧ SetposOk r ds x := by
   intro x hx
-  obtain ⟨h1, h2⟩ := fillMly_sound_all r p n l hr hp hs hn hy hsup hsh hf h x hx
+  obtain ⟨h1, h2⟩ := fillMly_sound_all r p n l hr hp hn hy hsup hsh hf h x hx
   obtain ⟨b1, ⟨k, hk⟩, _⟩ := (mlyInst_iff r p x).1 h1
   have hidx : pIdx p ≤ pIdx x := by rw [hk]; omega
   refine ⟨(mlyInst_reseed r ds p x hr hseed hidx).1 h1, ?_⟩
@@ -153,7 +153,7 @@ theorem fillMly_sound_reseed (r : Rule) (ds p : Inst) (n : Nat) (l : List Inst) 
 /-- C01 across a refill, completeness: an occurrence of (ds, rule) at or after the seed, not after UNTIL and not after
 2099 is in the result, or the result is full and all of it comes before that occurrence -/
 theorem fillMly_complete_reseed (r : Rule) (ds p : Inst) (n : Nat) (l : List Inst) (hr : WfRule r) (hp : WfInst p)
-    (hs : SeedOk r p) (hn : n ≤ 64) (hy : 1901 ≤ p.y) (hsup : MlySup r) (hsh : r.shift = 0)
+    (hn : n ≤ 64) (hy : 1901 ≤ p.y) (hsup : MlySup r) (hsh : r.shift = 0)
     (hf : r.pos ≠ [] → r.freq = 2) (hseed : MonthlyInst r ds p) (hfp : MlyFirstPos r p) (h : fillMly r p n = some l)
     (x : Inst) (hx : MonthlyInst r ds x) (hsp : SetposOk r ds x) (hge : absOf p ≤ absOf x)
     (hle : ltP r.untl x = false) (hxy : x.y ≤ 2099) :
@@ -172,6 +172,6 @@ theorem fillMly_complete_reseed (r : Rule) (ds p : Inst) (n : Nat) (l : List Ins
     by_cases hpos : r.pos = []
     · exact Or.inl hpos
     · exact (mlySetpos_reseed r ds p x hr (hf hpos) hseed ⟨hk.1, hk.2.1⟩ hidx).2 hsp
-  exact fillMly_complete_all r p n l hr hp hs hn hy hsup hsh hf hfp h x hx' hsp' hge hle hxy
+  exact fillMly_complete_all r p n l hr hp hn hy hsup hsh hf hfp h x hx' hsp' hge hle hxy
 
 end Echse.Lemmas.RrMlyRfc
